@@ -201,7 +201,7 @@ impl C05 {
     fn scale_len(&self, ctx: &Ctx) -> u64 {
         let mut s = self.scale.borrow_mut();
         if s.is_none() {
-            *s = Some(crate::scale::programs_for(ctx.flavour, ctx.tier));
+            *s = Some(crate::scale::programs_for(ctx.flavour, Tier::Quick));
         }
         s.as_ref().unwrap().len() as u64
     }
